@@ -118,21 +118,84 @@ func (c *Ctx) CG() *callGraph {
 	}
 	sort.Slice(g.addrTaken, func(i, j int) bool { return c.fnName(g.addrTaken[i]) < c.fnName(g.addrTaken[j]) })
 	// pass 2: resolve
-	nEdges := 0
+	resolveAll := func() int {
+		g.callees = map[ssa.Instruction][]*ssa.Function{}
+		g.external = map[ssa.Instruction]bool{}
+		g.callers = map[*ssa.Function][]callSite{}
+		n := 0
+		for _, fn := range c.RepoFns {
+			eachInstr(fn, func(r instrRef) {
+				cc := callCommon(r.I)
+				if cc == nil {
+					return
+				}
+				cs, ext := g.resolve(cc)
+				g.callees[r.I] = cs
+				g.external[r.I] = ext
+				for _, callee := range cs {
+					g.callers[callee] = append(g.callers[callee], callSite{fn, r.I})
+					n++
+				}
+			})
+		}
+		return n
+	}
+	nEdges := resolveAll()
+	// pass 3: func-typed fields initialised from a constructor's parameter: the function values passed by the callers
+	added := false
 	for _, fn := range c.RepoFns {
 		eachInstr(fn, func(r instrRef) {
-			cc := callCommon(r.I)
-			if cc == nil {
+			st, ok := r.I.(*ssa.Store)
+			if !ok {
 				return
 			}
-			cs, ext := g.resolve(cc)
-			g.callees[r.I] = cs
-			g.external[r.I] = ext
-			for _, callee := range cs {
-				g.callers[callee] = append(g.callers[callee], callSite{fn, r.I})
-				nEdges++
+			fa, ok := st.Addr.(*ssa.FieldAddr)
+			if !ok {
+				return
+			}
+			p, ok := st.Val.(*ssa.Parameter)
+			if !ok {
+				return
+			}
+			if _, isSig := p.Type().Underlying().(*types.Signature); !isSig {
+				return
+			}
+			pidx := -1
+			for i, q := range fn.Params {
+				if q == p {
+					pidx = i
+				}
+			}
+			fv := fieldAddrVar(fa)
+			for _, cs := range g.callers[fn] {
+				cc := callCommon(cs.Instr)
+				if pidx < 0 || pidx >= len(cc.Args) {
+					continue
+				}
+				if f := funcOf(cc.Args[pidx]); f != nil {
+					for f.Synthetic != "" {
+						inner := wrappedCallee(f)
+						if inner == nil {
+							break
+						}
+						f = inner
+					}
+					dup := false
+					for _, o := range g.fieldFuncs[fv] {
+						if o == f {
+							dup = true
+						}
+					}
+					if !dup && f.Blocks != nil {
+						g.fieldFuncs[fv] = append(g.fieldFuncs[fv], f)
+						added = true
+					}
+				}
 			}
 		})
+	}
+	if added {
+		nEdges = resolveAll()
 	}
 	c.Stats["callgraph_edges_repo"] = nEdges
 	return g
